@@ -425,6 +425,12 @@ func (o ZVOp) Context() string { return "zctx" }
 
 type ZPOp struct{ s string }
 
+// ZFOp: a func-kind operator type; ZFOp(nil) is a typed nil whose methods call the nil func
+type ZFOp func() string
+
+func (f ZFOp) String() string  { return f() }
+func (f ZFOp) Context() string { return "zctx" }
+
 func (o *ZPOp) String() string  { return "zp" }
 func (o *ZPOp) Context() string { return "zctx" }
 
@@ -436,6 +442,8 @@ func opOf(s string) stackage.Operator {
 		return (*ZVOp)(nil)
 	case s == "y":
 		return (*ZPOp)(nil)
+	case s == "w":
+		return ZFOp(nil)
 	case s[0] == 'c':
 		n, _ := strconv.Atoi(s[1:])
 		return stackage.ComparisonOperator(n)
@@ -464,6 +472,8 @@ func opStr(o stackage.Operator) string {
 		return "z"
 	case *ZPOp:
 		return "y"
+	case ZFOp:
+		return "w"
 	}
 	return "u?"
 }
